@@ -1,4 +1,5 @@
 import MicroHttp.Props.C08
+import MicroHttp.Props.C08History
 import MicroHttp.Props.C08Live
 import MicroHttp.Props.C08System
 import MicroHttp.Props.Tables
@@ -9,6 +10,8 @@ import MicroHttp.Props.Tables
 #print axioms MicroHttp.C08.flush_delivers
 #print axioms MicroHttp.C08.stale_out_repaired
 #print axioms MicroHttp.C08.interest_follows_work
+#print axioms MicroHttp.C08.interest_follows_work_throughout
+#print axioms MicroHttp.C08.every_answer_arms_out
 #print axioms MicroHttp.C08.no_spin
 #print axioms MicroHttp.C08.no_lost_wakeup
 #print axioms MicroHttp.C08.silent_means_idle
